@@ -1,5 +1,5 @@
-(* C09 - placeholder statements are added below as proofs land. *)
-From ZV Require Import Str Dec Rx RegexSrc Pep440 RegexEquiv.
+(* C09: the PEP 440 parser accepts exactly Appendix B and prints the normal form. *)
+From ZV Require Import Str Dec Rx RegexSrc Pep440 RegexEquiv Pep440Nf PepRoundTrip PepParseBack PepParseNf.
 From RelationAlgebra Require regex.
 
 (* Tie 1, re-decided on every run: the source regex and Appendix B's regex denote the same language *)
@@ -22,6 +22,45 @@ Proof.
   - intros [H _]. discriminate.
 Qed.
 
+
+(* The printed normal form is a fixed point of the parser: every PEP 440 value in normal form (non-empty release, every label with its
+   number, local segments lower-case alphanumeric or numbers, all numbers below 2^32) is printed to a string that zerv's own parser -
+   regex acceptance AND the capture scanner AND the conversions - accepts, and the value read back is exactly the one printed: every
+   number preserved, no part dropped, moved or re-spelled.  Hence normalising a normal form changes nothing. *)
+Theorem c09_normal_form_is_read_back : forall p, pep_nf p -> pep_parse (pep_print p) = Some p.
+Proof. exact pep_parse_print. Qed.
+
+(* the executable form of the hypothesis, evaluated by the correspondence run on every value the parser returns *)
+Theorem c09_normal_form_decidable : forall p, pep_nf_b p = true -> pep_parse (pep_print p) = Some p.
+Proof. intros p H. apply pep_parse_print, pep_nf_b_sound, H. Qed.
+
+Example c09_normal_form_nonvacuous :
+  let p := {| p_epoch := 2; p_release := [1; 20; 0]; p_pre_label := Some Rc; p_pre_num := Some 3; p_post_label := true; p_post_num := Some 4;
+              p_dev_label := true; p_dev_num := Some 5; p_local := Some [LStr [117; 98]; LUInt 7] |} in
+  pep_nf_b p = true /\ pep_parse (pep_print p) = Some p.
+Proof. exact pep_parse_print_nonvacuous. Qed.
+
+
+(* Whatever the parser returns - for EVERY input string - is in normal form: non-empty release, every number below 2^32 and preserved
+   as parsed, every label with its number (implicit numbers are 0), local segments lower-case alphanumeric or numbers. *)
+Theorem c09_parser_returns_normal_form : forall s v, pep_parse s = Some v -> pep_nf v.
+Proof. exact pep_parse_nf. Qed.
+
+(* NORMALISING IS IDEMPOTENT, for every accepted string: the printed normal form is accepted again and parses to the same value (so
+   printing it again gives the same string) ... *)
+Theorem c09_normalising_idempotent : forall s v, pep_parse s = Some v -> pep_parse (pep_print v) = Some v.
+Proof. exact pep_normalise_idempotent. Qed.
+
+(* ... and the normal form compares equal to the original *)
+Theorem c09_normal_form_equals_original : forall s v, pep_parse s = Some v ->
+  exists v', pep_parse (pep_print v) = Some v' /\ pep_cmp v v' = Eq /\ pep_print v' = pep_print v.
+Proof. exact pep_normal_form_equal. Qed.
+
 Print Assumptions c09_regex_is_appendix_b.
 Print Assumptions c09_matcher_decides.
 Print Assumptions c09_accepts_iff_partial.
+Print Assumptions c09_normal_form_is_read_back.
+Print Assumptions c09_normal_form_decidable.
+Print Assumptions c09_parser_returns_normal_form.
+Print Assumptions c09_normalising_idempotent.
+Print Assumptions c09_normal_form_equals_original.
